@@ -1,6 +1,740 @@
 package main
 
-func c16Canonical(c *Ctx) {}
-func c16Limits(c *Ctx)    {}
-func c16Ladders(c *Ctx)   {}
-func c16Codecs(c *Ctx)    {}
+// C16 (continued) — canonical-form rejections, input limits, exactly-one-value.
+
+import (
+	"fmt"
+	"go/types"
+	"reflect"
+	"regexp"
+	"sort"
+	"strconv"
+	"strings"
+
+	"golang.org/x/tools/go/ssa"
+)
+
+const (
+	kKind = `call:\(\*lib/rlp\.Stream\)\.Kind\(s\)#0`
+	kSize = `call:\(\*lib/rlp\.Stream\)\.Kind\(s\)#1`
+	kErr  = `call:\(\*lib/rlp\.Stream\)\.Kind\(s\)#2`
+)
+
+func c16Canonical(c *Ctx) {
+	kindOK := G("Kind() returned no error", IsNil(`^`+kErr+`$`))
+	// ---- integers -------------------------------------------------------------------------------------------
+	if fn := c.Fn("lib/rlp", "Stream", "uint"); fn != nil {
+		c.Guarded(fn, "accept a single-byte integer", func(in ssa.Instruction) bool {
+			r, ok := in.(*ssa.Return)
+			return ok && len(r.Results) == 2 && pathOf(r.Results[0]) == "s.byteval" && pathOf(r.Results[1]) == "nil"
+		}, kindOK, G("kind is Byte", Cmp(`^`+kKind+`$`, "==", `^const:0$`)), G("the byte is not zero (zero is the empty string)", Cmp(`^s\.byteval$`, "!=", `^const:0$`)))
+		ru := `call:\(\*lib/rlp\.Stream\)\.readUint\(s, ` + kSize + `\)`
+		c.Guarded(fn, "accept a string-encoded integer", func(in ssa.Instruction) bool {
+			r, ok := in.(*ssa.Return)
+			return ok && len(r.Results) == 2 && strings.HasSuffix(pathOf(r.Results[0]), "#0") && strings.Contains(pathOf(r.Results[0]), ".readUint(") && pathOf(r.Results[1]) == "nil"
+		}, kindOK, G("kind is String", Cmp(`^`+kKind+`$`, "==", `^const:1$`)),
+			G("size within the integer width", Cmp(`^`+kSize+`$`, "<=", `^\(maxbits / const:8\)$`)),
+			G("no leading zero (readUint did not report ErrCanonSize)", Cmp(`^`+ru+`#1$`, "!=", `^global:lib/rlp\.ErrCanonSize$`)),
+			G("bytes read without error", IsNil(`^`+ru+`#1$`)),
+			G("not a value below 128 wrapped as a string", False(`^phi\(\(`+ru+`#0 < const:128\)\|const:false\)$`)))
+		// ... where that condition is `size > 0 && value < 128`
+		for _, in := range findInstrs(fn, IfOn(`^phi\(\(`+ru+`#0 < const:128\)\|const:false\)$`)) {
+			ok := true
+			for _, pc := range phiCases(in.(*ssa.If).Cond) {
+				switch pathOf(pc.Val) {
+				case "const:false":
+					ok = ok && hasCond(pc.Conds, `^\(`+kSize+` > const:0\)=F$`)
+				default:
+					ok = ok && hasCond(pc.Conds, `^\(`+kSize+` > const:0\)=T$`)
+				}
+			}
+			c.Check("G", fnName(fn)+"/the wrapped-small-value test applies to every non-empty string", ok, instrPos(in), 1, "")
+		}
+		c.Guarded(fn, "report ErrCanonInt for a leading zero", ReturnWith(1, `^global:lib/rlp\.ErrCanonInt$`), G("zero byte, or readUint saw a leading zero", Cmp(`^s\.byteval$`, "==", `^const:0$`), Cmp(`^`+ru+`#1$`, "==", `^global:lib/rlp\.ErrCanonSize$`)))
+		n := len(findInstrs(fn, ReturnWith(1, `^global:lib/rlp\.(ErrCanonInt|ErrCanonSize|errUintOverflow|ErrExpectedString)$`)))
+		c.Check("G", fnName(fn)+"/rejections present (leading zero x2, wrapped small value, overflow, list)", n == 5, fn.Pos(), n, "")
+	}
+	if fn := c.Fn("lib/rlp", "Stream", "Bool"); fn != nil {
+		u := `call:\(\*lib/rlp\.Stream\)\.uint\(s, const:8\)`
+		c.GuardedReturnVal(fn, "return true", 0, `^const:true$`, G("uint(8) ok", IsNil(`^`+u+`#1$`)), G("value is 1", Cmp(`^`+u+`#0$`, "==", `^const:1$`)))
+		c.Guarded(fn, "return false without error", func(in ssa.Instruction) bool {
+			r, ok := in.(*ssa.Return)
+			return ok && len(r.Results) == 2 && pathOf(r.Results[0]) == "const:false" && pathOf(r.Results[1]) == "nil"
+		}, G("uint(8) ok", IsNil(`^`+u+`#1$`)), G("value is 0", Cmp(`^`+u+`#0$`, "==", `^const:0$`)))
+	}
+	if fn := c.Fn("lib/rlp", "", "SplitUint64"); fn != nil {
+		ct := `call:lib/rlp\.SplitString\(b\)#0`
+		c.Guarded(fn, "accept a one-byte integer", func(in ssa.Instruction) bool {
+			r, ok := in.(*ssa.Return)
+			return ok && len(r.Results) == 3 && re(`^`+ct+`\[const:0\]$`).MatchString(pathOf(r.Results[0]))
+		}, G("split ok", IsNil(`^call:lib/rlp\.SplitString\(b\)#2$`)), G("not a zero byte", Cmp(`^`+ct+`\[const:0\]$`, "!=", `^const:0$`)))
+		c.Guarded(fn, "accept a multi-byte integer", func(in ssa.Instruction) bool {
+			r, ok := in.(*ssa.Return)
+			return ok && len(r.Results) == 3 && strings.HasPrefix(pathOf(r.Results[0]), "call:lib/rlp.readSize(")
+		}, G("split ok", IsNil(`^call:lib/rlp\.SplitString\(b\)#2$`)), G("at most 8 bytes", Cmp(`^call:len\(`+ct+`\)$`, "<=", `^const:8$`)), G("readSize ok (no leading zero)", IsNil(`^call:lib/rlp\.readSize\(.*\)#1$`)))
+	}
+	// ---- byte strings -------------------------------------------------------------------------------------
+	wrapped := func(buf string) Guard {
+		return G("not a single byte below 0x80 wrapped as a string", Cmp(`^`+kSize+`$`, "!=", `^const:1$`), Cmp(`^`+buf+`\[const:0\]$`, ">=", `^const:128$`))
+	}
+	if fn := c.Fn("lib/rlp", "Stream", "Bytes"); fn != nil {
+		buf := `make:\[\]byte\(` + kSize + `\)`
+		c.Guarded(fn, "return the string content", func(in ssa.Instruction) bool {
+			r, ok := in.(*ssa.Return)
+			return ok && len(r.Results) == 2 && strings.HasPrefix(pathOf(r.Results[0]), "make:[]byte(") && pathOf(r.Results[1]) == "nil"
+		}, kindOK, G("kind is String", Cmp(`^`+kKind+`$`, "==", `^const:1$`)), G("content read without error", IsNil(`^call:\(\*lib/rlp\.Stream\)\.readFull\(s, `+buf+`\)$`)), wrapped(buf))
+		c.Guarded(fn, "return the single byte", func(in ssa.Instruction) bool {
+			r, ok := in.(*ssa.Return)
+			return ok && len(r.Results) == 2 && strings.HasPrefix(pathOf(r.Results[0]), "slicelit[") && pathOf(r.Results[1]) == "nil"
+		}, kindOK, G("kind is Byte", Cmp(`^`+kKind+`$`, "==", `^const:0$`)))
+	}
+	if fn := c.Fn("lib/rlp", "Stream", "ReadBytes"); fn != nil {
+		c.Guarded(fn, "accept (return nil)", SuccessReturn(0, ""), kindOK,
+			G("kind is Byte or String", Cmp(`^`+kKind+`$`, "==", `^const:0$`), Cmp(`^`+kKind+`$`, "==", `^const:1$`)),
+			G("size matches the buffer", Cmp(`^call:len\(b\)$`, "==", `^const:1$`), Cmp(`^call:len\(b\)$`, "==", `^`+kSize+`$`)),
+			G("not a wrapped single byte", Cmp(`^`+kKind+`$`, "==", `^const:0$`), Cmp(`^`+kSize+`$`, "!=", `^const:1$`), Cmp(`^b\[const:0\]$`, ">=", `^const:128$`)))
+	}
+	if fn := c.Fn("lib/rlp", "", "decodeByteArray"); fn != nil {
+		sl := `call:lib/rlp\.byteArrayBytes\(val, call:\(reflect\.Value\)\.Len\(val\)\)`
+		c.Guarded(fn, "accept (return nil)", SuccessReturn(0, ""), kindOK,
+			G("kind is not List", Cmp(`^`+kKind+`$`, "!=", `^const:2$`), Cmp(`^`+kKind+`$`, "==", `^const:0$`), Cmp(`^`+kKind+`$`, "==", `^const:1$`)),
+			// the last alternative of each guard is the switch's implicit default (kind outside Byte/String/List),
+			// which readKind never produces (checked above: the kinds are the constants 0, 1, 2)
+			G("array not longer than the input", Cmp(`^call:len\(`+sl+`\)$`, "<=", `^const:1$`), Cmp(`^call:len\(`+sl+`\)$`, "<=", `^`+kSize+`$`), Cmp(`^`+kKind+`$`, "!=", `^const:2$`)),
+			G("array not shorter than the input", Cmp(`^call:len\(`+sl+`\)$`, "!=", `^const:0$`), Cmp(`^call:len\(`+sl+`\)$`, ">=", `^`+kSize+`$`), Cmp(`^`+kKind+`$`, "!=", `^const:2$`)),
+			G("not a wrapped single byte", Cmp(`^`+kKind+`$`, "==", `^const:0$`), Cmp(`^`+kSize+`$`, "!=", `^const:1$`), Cmp(`^`+sl+`\[const:0\]$`, ">=", `^const:128$`), Cmp(`^`+kKind+`$`, "!=", `^const:2$`)))
+	}
+	// ---- big integers ---------------------------------------------------------------------------------------
+	if fn := c.Fn("lib/rlp", "", "decodeBigInt"); fn != nil {
+		small := `s\.uintbuf\[:` + kSize + `\]`
+		c.Guarded(fn, "set the integer", CallTo(`^\(\*math/big\.Int\)\.SetBytes$`, ""), kindOK,
+			G("kind is not List", Cmp(`^`+kKind+`$`, "!=", `^const:2$`)),
+			G("no leading zero byte", Cmp(`^call:len\(phi\(`, "<=", `^const:0$`), Cmp(`^phi\(make:\[\]byte.*\[const:0\]$`, "!=", `^const:0$`)),
+			G("not a wrapped single byte", Cmp(`^`+kKind+`$`, "==", `^const:0$`), Cmp(`^`+kSize+`$`, "==", `^const:0$`), Cmp(`^`+kSize+`$`, ">", `^const:32$`), Cmp(`^`+kSize+`$`, "!=", `^const:1$`), Cmp(`^`+small+`\[const:0\]$`, ">=", `^const:128$`)))
+		// the value handed to SetBytes is the buffer that was checked
+		for _, in := range findInstrs(fn, CallTo(`^\(\*math/big\.Int\)\.SetBytes$`, "")) {
+			a := argPaths(callCommon(in))
+			c.Check("F", fnName(fn)+"/the checked buffer is the one decoded", len(a) == 2 && strings.HasPrefix(a[1], "phi(make:[]byte("), instrPos(in), 1, clip(strings.Join(a, ", "), 200))
+		}
+	}
+}
+
+func c16Limits(c *Ctx) {
+	// ---- Kind: the size is checked against the list and the input limit --------------------------------------
+	if fn := c.Fn("lib/rlp", "Stream", "Kind"); fn != nil {
+		ret := func(in ssa.Instruction) bool { _, ok := in.(*ssa.Return); return ok }
+		errStore := func(e string) SinkSel {
+			return func(in ssa.Instruction) bool {
+				s, ok := in.(*ssa.Store)
+				return ok && pathOf(s.Addr) == "&s.kinderr" && pathOf(s.Val) == "global:lib/rlp."+e
+			}
+		}
+		c.AfterGuard(fn, G("size exceeds what is left of the enclosing list", Cmp(`^s\.size$`, ">", `^call:\(\*lib/rlp\.Stream\)\.listLimit\(s\)#1$`)), "record ErrElemTooLarge", errStore("ErrElemTooLarge"), "returning", ret)
+		c.AfterGuard(fn, G("size exceeds the remaining input", Cmp(`^s\.size$`, ">", `^s\.remaining$`)), "record ErrValueTooLarge", errStore("ErrValueTooLarge"), "returning", ret)
+		// the list test is made whenever the stream is inside a list, the input test whenever it is limited
+		rk := CallTo(`^\(\*lib/rlp\.Stream\)\.readKind$`, "")
+		c.Precedes(fn, "readKind", rk, "size tests", Or(IfOn(`^\(s\.size > `), errStore("ErrElemTooLarge"), errStore("ErrValueTooLarge")))
+		for _, t := range []struct{ desc, cond, flag string }{
+			{"inside a list the size is compared with the list remainder", `^\(s\.size > call:\(\*lib/rlp\.Stream\)\.listLimit\(s\)#1\)$`, `^call:\(\*lib/rlp\.Stream\)\.listLimit\(s\)#0$`},
+			{"with an input limit the size is compared with the remaining input", `^\(s\.size > s\.remaining\)$`, `^s\.limited$`},
+		} {
+			tests := findInstrs(fn, IfOn(t.cond))
+			ok := len(tests) == 1
+			if ok {
+				dc := domConds(tests[0])
+				ok = hasCond(dc, `^\(s\.kinderr == nil\)=T$`) && hasCond(dc, t.flag[:len(t.flag)-1]+`=T$`)
+				// and nothing else decides whether the test is made
+				for _, d := range dc {
+					if !re(`^\(s\.kinderr == nil\)=T$|^\(s\.kind >= const:0\)=F$|listLimit\(s\)#0=|^\(call:\(\*lib/rlp\.Stream\)\.listLimit\(s\)#1 == const:0\)=F$|^s\.limited=T$|^\(s\.size > call:\(\*lib/rlp\.Stream\)\.listLimit\(s\)#1\)=F$`).MatchString(d) {
+						ok = false
+					}
+				}
+			}
+			c.Check("G", fnName(fn)+"/"+t.desc, ok, fn.Pos(), len(tests), "")
+		}
+		c.Guarded(fn, "report end of list", ReturnWith(2, `^global:lib/rlp\.EOL$`), G("inside a list", True(`^call:\(\*lib/rlp\.Stream\)\.listLimit\(s\)#0$`)), G("nothing left in it", Cmp(`^call:\(\*lib/rlp\.Stream\)\.listLimit\(s\)#1$`, "==", `^const:0$`)))
+	}
+	// ---- willRead: counters are decreased only after the comparison ------------------------------------------
+	if fn := c.Fn("lib/rlp", "Stream", "willRead"); fn != nil {
+		c.Guarded(fn, "decrease the list remainder", StoreTo(`^&s\.stack\[`), G("n <= list remainder", Cmp(`^n$`, "<=", `^call:\(\*lib/rlp\.Stream\)\.listLimit\(s\)#1$`)))
+		c.Guarded(fn, "decrease the remaining input", StoreTo(`^&s\.remaining$`), G("n <= remaining", Cmp(`^n$`, "<=", `^s\.remaining$`)))
+		c.Guarded(fn, "allow the read (return nil)", SuccessReturn(0, ""),
+			G("n fits the enclosing list", False(`^call:\(\*lib/rlp\.Stream\)\.listLimit\(s\)#0$`), Cmp(`^n$`, "<=", `^call:\(\*lib/rlp\.Stream\)\.listLimit\(s\)#1$`)),
+			G("n fits the input limit", False(`^s\.limited$`), Cmp(`^n$`, "<=", `^s\.remaining$`)))
+		for _, in := range findInstrs(fn, Or(StoreTo(`^&s\.stack\[`), StoreTo(`^&s\.remaining$`))) {
+			s := in.(*ssa.Store)
+			want := map[bool]string{true: "(s.remaining - n)", false: "(call:(*lib/rlp.Stream).listLimit(s)#1 - n)"}[pathOf(s.Addr) == "&s.remaining"]
+			c.Check("F", fnName(fn)+"/"+pathOf(s.Addr)[1:]+" decreases by n", pathOf(s.Val) == want, instrPos(in), 1, describeInstr(in))
+		}
+	}
+	for _, name := range []string{"readFull", "readByte"} {
+		if fn := c.Fn("lib/rlp", "Stream", name); fn != nil {
+			c.Precedes(fn, "willRead", CallTo(`^\(\*lib/rlp\.Stream\)\.willRead$`, ""), "reading from the underlying reader", CallTo(`^iface:\(.*\)\.(Read|ReadByte)$`, ""))
+			c.Guarded(fn, "read from the underlying reader", CallTo(`^iface:\(.*\)\.(Read|ReadByte)$`, ""), G("willRead allowed it", IsNil(`^call:\(\*lib/rlp\.Stream\)\.willRead\(s, `)))
+		}
+	}
+	if fn := c.Fn("lib/rlp", "Stream", "readFull"); fn != nil {
+		for _, in := range findInstrs(fn, CallTo(`^\(\*lib/rlp\.Stream\)\.willRead$`, "")) {
+			a := argPaths(callCommon(in))
+			c.Check("F", fnName(fn)+"/accounts the whole buffer length", len(a) == 2 && a[1] == "call:len(buf)", instrPos(in), 1, describeInstr(in))
+		}
+	}
+	// ---- List / ListEnd ------------------------------------------------------------------------------------------
+	if fn := c.Fn("lib/rlp", "Stream", "List"); fn != nil {
+		c.Guarded(fn, "enter the list", StoreTo(`^&s\.stack`), G("Kind() returned no error (size within limits)", IsNil(`^`+kErr+`$`)), G("kind is List", Cmp(`^`+kKind+`$`, "==", `^const:2$`)))
+		for _, in := range findInstrs(fn, StoreTo(`^&s\.stack\[`)) {
+			c.Check("F", fnName(fn)+"/the outer list gives up exactly the inner size", pathOf(in.(*ssa.Store).Val) == "(call:(*lib/rlp.Stream).listLimit(s)#1 - call:(*lib/rlp.Stream).Kind(s)#1)", instrPos(in), 1, describeInstr(in))
+		}
+		n := 0
+		for _, in := range findInstrs(fn, StoreTo(`^&s\.stack$`)) {
+			if strings.HasPrefix(pathOf(in.(*ssa.Store).Val), "call:append(s.stack, varargs[call:(*lib/rlp.Stream).Kind(s)#1]") {
+				n++
+			}
+		}
+		c.Check("F", fnName(fn)+"/pushes the list size", n == 1, fn.Pos(), n, "")
+	}
+	if fn := c.Fn("lib/rlp", "Stream", "ListEnd"); fn != nil {
+		c.Guarded(fn, "leave the list", Or(StoreTo(`^&s\.stack$`), SuccessReturn(0, "")), G("inside a list", True(`^call:\(\*lib/rlp\.Stream\)\.listLimit\(s\)#0$`)),
+			G("no unread element left", Cmp(`^call:\(\*lib/rlp\.Stream\)\.listLimit\(s\)#1$`, "<=", `^const:0$`), Cmp(`^call:\(\*lib/rlp\.Stream\)\.listLimit\(s\)#1$`, "==", `^const:0$`)))
+	}
+	// ---- exactly one value ----------------------------------------------------------------------------------------
+	if fn := c.Fn("lib/rlp", "", "DecodeBytes"); fn != nil {
+		c.Guarded(fn, "accept (return nil)", SuccessReturn(0, ""), G("value decoded", IsNil(`^call:\(\*lib/rlp\.Stream\)\.Decode\(`)), G("no byte left after the value", Cmp(`^call:\(\*bytes\.Reader\)\.Len\(call:bytes\.NewReader\(b\)\)$`, "<=", `^const:0$`), Cmp(`^call:\(\*bytes\.Reader\)\.Len\(call:bytes\.NewReader\(b\)\)$`, "==", `^const:0$`)))
+		n := 0
+		for _, in := range findInstrs(fn, CallTo(`^\(\*lib/rlp\.Stream\)\.Reset$`, "")) {
+			if a := argPaths(callCommon(in)); len(a) == 3 && a[1] == "call:bytes.NewReader(b)" && a[2] == "call:len(b)" {
+				n++
+			}
+		}
+		c.Check("F", fnName(fn)+"/the input limit is the length of the input", n == 1, fn.Pos(), n, "")
+	}
+	if fn := c.Fn("lib/rlp", "", "decodeListArray"); fn != nil {
+		c.Guarded(fn, "finish the array", CallTo(`^\(\*lib/rlp\.Stream\)\.ListEnd$`, ""), G("every element was present", Cmp(`^phi\(`, ">=", `^call:\(reflect\.Value\)\.Len\(val\)$`)))
+		c.OnEveryPath(fn, "ListEnd (rejects extra elements)", CallTo(`^\(\*lib/rlp\.Stream\)\.ListEnd$`, ""), "a return other than an error exit", func(in ssa.Instruction) bool {
+			r, ok := in.(*ssa.Return)
+			return ok && strings.Contains(pathOf(r.Results[0]), "ListEnd")
+		})
+	}
+	if fn := c.Fn("lib/rlp", "", "decodeListSlice"); fn != nil {
+		c.OnEveryPath(fn, "ListEnd", CallTo(`^\(\*lib/rlp\.Stream\)\.ListEnd$`, ""), "a successful return", func(in ssa.Instruction) bool {
+			r, ok := in.(*ssa.Return)
+			return ok && strings.Contains(pathOf(r.Results[0]), "ListEnd")
+		})
+		n := 0
+		for _, in := range findInstrs(fn, AnyReturn()) {
+			p := pathOf(in.(*ssa.Return).Results[0])
+			if p == "nil" {
+				n++
+			}
+		}
+		c.Check("O", fnName(fn)+"/no successful return bypasses ListEnd", n == 0, fn.Pos(), n, "")
+	}
+	if fn := c.P.FuncByName("lib/rlp.makeStructDecoder$1"); fn != nil && len(fn.Blocks) > 0 {
+		c.Funcs["lib/rlp.makeStructDecoder$1"] = true
+		n := 0
+		for _, in := range findInstrs(fn, AnyReturn()) {
+			p := pathOf(in.(*ssa.Return).Results[0])
+			if p == "nil" {
+				n++
+			}
+		}
+		le := len(findInstrs(fn, CallTo(`^\(\*lib/rlp\.Stream\)\.ListEnd$`, "")))
+		c.Check("O", "lib/rlp.makeStructDecoder$1/every successful return is the verdict of ListEnd (extra elements rejected)", n == 0 && le == 1, fn.Pos(), le, "")
+		c.Guarded(fn, "zero the remaining fields and stop", CallTo(`^lib/rlp\.zeroFields$`, ""), G("end of list reached", Cmp(`^call:dyn:fields\[.*\]\.info\.decoder\(s, `, "==", `^global:lib/rlp\.EOL$`)), G("field is optional", True(`\.optional$`)))
+	} else {
+		c.Unres("anchor", "lib/rlp.makeStructDecoder$1", "struct decoder closure not found")
+	}
+	// ---- size-dependent allocations on the decode side ----------------------------------------------------------
+	nAlloc := 0
+	for _, f := range c.P.ModFuncs {
+		if f.Pkg == nil || strings.TrimPrefix(f.Pkg.Pkg.Path(), modPath+"/") != "lib/rlp" || len(f.Blocks) == 0 {
+			continue
+		}
+		pos := c.P.Pos(f.Pos())
+		if !strings.HasPrefix(pos, "lib/rlp/decode.go") && !strings.HasPrefix(pos, "lib/rlp/raw.go") && !strings.HasPrefix(pos, "lib/rlp/iterator.go") {
+			continue
+		}
+		f := f
+		allInstrs(f, false, func(_ *ssa.Function, in ssa.Instruction) {
+			var size ssa.Value
+			switch v := in.(type) {
+			case *ssa.MakeSlice:
+				size = v.Cap
+				if size == nil {
+					size = v.Len
+				}
+				if _, isConst := v.Len.(*ssa.Const); isConst && v.Cap == v.Len {
+					return
+				}
+			case *ssa.Call:
+				if calleeNameNoPath(&v.Call) == "reflect.MakeSlice" && len(v.Call.Args) == 3 {
+					size = v.Call.Args[2]
+				}
+			}
+			if size == nil {
+				return
+			}
+			if _, isConst := size.(*ssa.Const); isConst {
+				return
+			}
+			nAlloc++
+			sp := pathOf(size)
+			key := fnName(f) + "/allocation of " + clip(sp, 80) + " bytes/elements is justified by the input"
+			switch {
+			case re(`^(\(call:lib/rlp\.headsize\(` + kSize + `\) \+ )?` + kSize + `\)?$`).MatchString(sp):
+				// the size announced by the header: Kind() has compared it with the remaining input / list
+				ok := hasCond(domConds(in), `^\(`+kErr+` != nil\)=F$`) || hasCond(domConds(in), `^\(`+kErr+` == nil\)=T$`)
+				c.Check("Z", key, ok, instrPos(in), 1, "the size comes from Kind() but the allocation is not behind the test of Kind()'s error, which carries the input-limit verdict")
+			case re(`^phi\((const:4\|)?\(call:\(reflect\.Value\)\.Cap\(val\) \+ \(call:\(reflect\.Value\)\.Cap\(val\) / const:2\)\)(\|const:4)?\)$`).MatchString(sp):
+				c.OK("Z", key, instrPos(in), 1, "geometric growth while elements are actually decoded (never from an announced size)")
+			default:
+				c.Bad("Z", key, instrPos(in), 1, "allocation size "+sp+" on the decode side is neither the Kind()-checked size nor incremental growth")
+			}
+		})
+	}
+	// ---- explicit panics -----------------------------------------------------------------------------------------
+	tabled := map[string]string{
+		"(*lib/rlp.EncoderBuffer).Reset": "programming error on the encode side (resetting a derived buffer), not input-dependent",
+		"lib/rlp.typeNilKind":            "unreachable default after a closed switch on the type cache's own kind values",
+		"lib/rlp.rtypeToStructType":      "depends on the Go type being decoded into (reflect.Invalid), which the caller fixes, not on the input bytes",
+	}
+	nPanic := 0
+	for _, f := range c.P.ModFuncs {
+		if f.Pkg == nil || !strings.HasPrefix(strings.TrimPrefix(f.Pkg.Pkg.Path(), modPath+"/"), "lib/rlp") || strings.Contains(f.Pkg.Pkg.Path(), "rlpgen") || len(f.Blocks) == 0 {
+			continue
+		}
+		f := f
+		allInstrs(f, false, func(_ *ssa.Function, in ssa.Instruction) {
+			if _, ok := in.(*ssa.Panic); !ok {
+				return
+			}
+			nPanic++
+			why, ok := tabled[fnName(rootFn(f))]
+			c.Check("P", fnName(f)+"/explicit panic is not reachable with untrusted input", ok, instrPos(in), 1, "explicit panic in "+fnName(f)+": arbitrary input must yield an error, never a panic"+why)
+		})
+	}
+	c.Check("P", "lib/rlp/explicit panics inventoried", nPanic >= 2, c.fnPos("lib/rlp.DecodeBytes"), nPanic, "")
+	c.Check("Z", "lib/rlp decode side/size-dependent allocations inventoried", nAlloc >= 4, c.fnPos("lib/rlp.DecodeBytes"), nAlloc, "")
+}
+
+// ---- minimal big-endian integer ladders ---------------------------------------------------------------------------
+
+// byteStores collects, for the blocks of one case body, the stores `dst[const:j] = src >> const:s`.
+func byteStores(fn *ssa.Function, body *ssa.BasicBlock, dstRe, src string) (map[int]int, []string, *ssa.Return) {
+	out := map[int]int{}
+	var other []string
+	var ret *ssa.Return
+	r := re(dstRe)
+	for _, b := range fn.Blocks {
+		if b != body && !body.Dominates(b) {
+			continue
+		}
+		for _, in := range b.Instrs {
+			switch x := in.(type) {
+			case *ssa.Store:
+				m := r.FindStringSubmatch(pathOf(x.Addr))
+				if m == nil {
+					continue
+				}
+				j, _ := strconv.Atoi(m[1])
+				v := pathOf(x.Val)
+				switch {
+				case v == src:
+					out[j] = 0
+				case strings.HasPrefix(v, "("+src+" >> const:") && strings.HasSuffix(v, ")"):
+					sft, err := strconv.Atoi(v[len(src)+11 : len(v)-1])
+					if err != nil {
+						other = append(other, v)
+					}
+					out[j] = sft
+				default:
+					other = append(other, fmt.Sprintf("[%d]=%s", j, v))
+				}
+			case *ssa.Return:
+				ret = x
+			}
+		}
+	}
+	return out, other, ret
+}
+
+func bigEndian(m map[int]int, first, k int) bool {
+	if len(m) != k {
+		return false
+	}
+	for j := 0; j < k; j++ {
+		if s, ok := m[first+j]; !ok || s != 8*(k-1-j) {
+			return false
+		}
+	}
+	return true
+}
+
+func c16Ladders(c *Ctx) {
+	if fn := c.Fn("lib/rlp", "", "putint"); fn != nil {
+		thr, bodies := caseLadder(fn, `^i$`)
+		ok := len(thr) == 7 && len(bodies) == 8
+		for k := 1; ok && k <= 7; k++ {
+			ok = thr[k-1] == int64(1)<<(8*uint(k))
+		}
+		c.Check("T", fnName(fn)+"/width k is chosen exactly for values below 2^(8k)", ok, fn.Pos(), len(thr), fmt.Sprint(thr))
+		for k := 1; k <= len(bodies) && k <= 8; k++ {
+			m, other, ret := byteStores(fn, bodies[k-1], `^&b\[const:(\d+)\]$`, "i")
+			good := bigEndian(m, 0, k) && len(other) == 0 && ret != nil && pathOf(ret.Results[0]) == "const:"+strconv.Itoa(k)
+			c.Check("T", fmt.Sprintf("%s/width %d writes the %d big-endian bytes of i and returns %d", fnName(fn), k, k, k), good, bodies[k-1].Instrs[0].Pos(), k, fmt.Sprint(m, other))
+		}
+	}
+	if fn := c.Fn("lib/rlp", "", "AppendUint64"); fn != nil {
+		thr, bodies := caseLadder(fn, `^i$`)
+		ok := len(thr) == 8 && len(bodies) == 9 && thr[0] == 128
+		for k := 1; ok && k <= 7; k++ {
+			ok = thr[k] == int64(1)<<(8*uint(k))
+		}
+		c.Check("T", fnName(fn)+"/single byte below 128, then width k exactly for values below 2^(8k)", ok, fn.Pos(), len(thr), fmt.Sprint(thr))
+		c.Guarded(fn, "zero is the empty string 0x80", func(in ssa.Instruction) bool {
+			s, ok := in.(*ssa.Store)
+			return ok && pathOf(s.Addr) == "&varargs[const:0]" && pathOf(s.Val) == "const:128"
+		}, G("i == 0", Cmp(`^i$`, "==", `^const:0$`)))
+		if len(bodies) == 9 {
+			m, other, _ := byteStores(fn, bodies[0], `^&varargs\[const:(\d+)\]$`, "i")
+			c.Check("T", fnName(fn)+"/a value below 128 is its own byte", len(m) == 1 && m[0] == 0 && len(other) == 0, bodies[0].Instrs[0].Pos(), 1, fmt.Sprint(m, other))
+			c.Guarded(fn, "write the value as its own byte", func(in ssa.Instruction) bool {
+				s, ok := in.(*ssa.Store)
+				return ok && pathOf(s.Addr) == "&varargs[const:0]" && pathOf(s.Val) == "i"
+			}, G("i != 0", Cmp(`^i$`, "!=", `^const:0$`)))
+			for k := 1; k <= 8; k++ {
+				m, other, _ := byteStores(fn, bodies[k], `^&varargs\[const:(\d+)\]$`, "i")
+				tag := ""
+				var rest []string
+				for _, o := range other {
+					if strings.HasPrefix(o, "[0]=const:") {
+						tag = o[10:]
+					} else {
+						rest = append(rest, o)
+					}
+				}
+				good := tag == strconv.Itoa(0x80+k) && bigEndian(m, 1, k) && len(rest) == 0
+				c.Check("T", fmt.Sprintf("%s/width %d writes tag 0x%x and the %d big-endian bytes", fnName(fn), k, 0x80+k, k), good, bodies[k].Instrs[0].Pos(), k+1, fmt.Sprint("tag ", tag, " bytes ", m, rest))
+			}
+		}
+	}
+	if fn := c.Fn("lib/rlp", "", "readSize"); fn != nil {
+		var phi ssa.Value
+		for _, in := range findInstrs(fn, SuccessReturn(1, "")) {
+			phi = in.(*ssa.Return).Results[0]
+		}
+		term := regexp.MustCompile(`b\[const:(\d+)\](?: << const:(\d+))?`)
+		seen := map[int]bool{}
+		for _, pc := range phiCases(phi) {
+			v := pathOf(pc.Val)
+			if v == "const:0" {
+				continue
+			}
+			k := 0
+			for _, cnd := range pc.Conds {
+				if m := regexp.MustCompile(`^\(slen == const:(\d+)\)=T$`).FindStringSubmatch(cnd); m != nil {
+					k, _ = strconv.Atoi(m[1])
+				}
+			}
+			m := map[int]int{}
+			for _, t := range term.FindAllStringSubmatch(v, -1) {
+				j, _ := strconv.Atoi(t[1])
+				sft := 0
+				if t[2] != "" {
+					sft, _ = strconv.Atoi(t[2])
+				}
+				m[j] = sft
+			}
+			seen[k] = true
+			c.Check("T", fmt.Sprintf("%s/a %d-byte size is the big-endian value of its %d bytes", fnName(fn), k, k), k >= 1 && k <= 8 && bigEndian(m, 0, k) && strings.Count(v, "|") == k-1, fn.Pos(), k, clip(v, 200))
+		}
+		var ks []int
+		for k := range seen {
+			ks = append(ks, k)
+		}
+		sort.Ints(ks)
+		c.Check("T", fnName(fn)+"/sizes of 1 to 8 bytes are handled", len(ks) == 8 && ks[0] == 1 && ks[7] == 8, fn.Pos(), len(ks), fmt.Sprint(ks))
+	}
+	if fn := c.Fn("lib/rlp", "", "intsize"); fn != nil {
+		okIf := len(findInstrs(fn, IfOn(`^\(\(phi\(\(phi@t\d+ >> const:8\)\|i\) >> const:8\) == const:0\)$`))) == 1
+		okRet := false
+		for _, in := range findInstrs(fn, AnyReturn()) {
+			okRet = re(`^phi\((\(phi@t\d+ \+ const:1\)\|const:1|const:1\|\(phi@t\d+ \+ const:1\))\)$`).MatchString(pathOf(in.(*ssa.Return).Results[0]))
+		}
+		c.Check("T", fnName(fn)+"/counts one byte per 8-bit shift until the value is exhausted, starting at 1", okIf && okRet, fn.Pos(), 2, "")
+	}
+	// the integer decoder's counterpart: 8 - size leading bytes stay zero
+	if fn := c.Fn("lib/rlp", "Stream", "readUint"); fn != nil {
+		n := len(findInstrs(fn, CallTo(`^\(\*lib/rlp\.Stream\)\.readFull$`, `s\.uintbuf\[:const:8\]\[\(const:8 - size\):\]\)$`)))
+		z := len(findInstrs(fn, StoreTo(`^&s\.uintbuf\[:const:8\]\[`)))
+		c.Check("T", fnName(fn)+"/a size-byte integer is right-aligned in a zeroed 8-byte big-endian buffer", n == 1 && z == 1, fn.Pos(), 2, "")
+	}
+}
+
+// ---- stream encoders versus the struct their decoder reads ----------------------------------------------------------
+
+func hasEncodeRLP(t types.Type) bool {
+	for _, tt := range []types.Type{t, types.NewPointer(t)} {
+		ms := types.NewMethodSet(tt)
+		for i := 0; i < ms.Len(); i++ {
+			if ms.At(i).Obj().Name() == "EncodeRLP" {
+				return true
+			}
+		}
+	}
+	return false
+}
+
+// rlpShape: the token sequence the reflection-based codec reads/writes for a type.
+func rlpShape(t types.Type, path string, top bool) []string {
+	if p, ok := t.(*types.Pointer); ok {
+		if n, ok := p.Elem().(*types.Named); ok && n.Obj().Pkg() != nil && n.Obj().Pkg().Path() == "math/big" && n.Obj().Name() == "Int" {
+			return []string{"I:" + path}
+		}
+		return rlpShape(p.Elem(), path, top)
+	}
+	if n, ok := t.(*types.Named); ok {
+		if n.Obj().Pkg() != nil && n.Obj().Pkg().Path() == "math/big" && n.Obj().Name() == "Int" {
+			return []string{"I:" + path}
+		}
+		if !top && hasEncodeRLP(n) {
+			return []string{"E:" + path}
+		}
+	}
+	switch u := t.Underlying().(type) {
+	case *types.Basic:
+		switch {
+		case u.Info()&types.IsUnsigned != 0:
+			return []string{"U:" + path}
+		case u.Info()&types.IsBoolean != 0:
+			return []string{"Bool:" + path}
+		case u.Info()&types.IsString != 0:
+			return []string{"S:" + path}
+		}
+		return []string{"?" + u.String() + ":" + path}
+	case *types.Slice:
+		if b, ok := u.Elem().Underlying().(*types.Basic); ok && b.Kind() == types.Uint8 {
+			return []string{"B:" + path}
+		}
+		return append(append([]string{"L("}, rlpShape(u.Elem(), path, false)...), ")")
+	case *types.Array:
+		if b, ok := u.Elem().Underlying().(*types.Basic); ok && b.Kind() == types.Uint8 {
+			return []string{"B:" + path}
+		}
+		return append(append([]string{"L("}, rlpShape(u.Elem(), path, false)...), ")")
+	case *types.Struct:
+		out := []string{"L("}
+		for i := 0; i < u.NumFields(); i++ {
+			f := u.Field(i)
+			if !f.Exported() {
+				continue
+			}
+			tag := reflect.StructTag(u.Tag(i)).Get("rlp")
+			if tag == "-" {
+				continue
+			}
+			p := f.Name()
+			if path != "" {
+				p = path + "." + f.Name()
+			}
+			if tag != "" {
+				out = append(out, "?tag("+tag+"):"+p)
+				continue
+			}
+			out = append(out, rlpShape(f.Type(), p, false)...)
+		}
+		return append(out, ")")
+	}
+	return []string{"?" + t.String() + ":" + path}
+}
+
+// encoderTokens: the sequence of EncoderBuffer operations of a stream encoder, in source order.
+func (c *Ctx) encoderTokens(fn *ssa.Function, recv string, alias map[string]string) []string {
+	type tok struct {
+		pos int
+		s   string
+	}
+	var toks []tok
+	fieldRe := regexp.MustCompile(`\b` + recv + `\.([A-Za-z_]\w*(?:\.[A-Za-z_]\w*)*)`)
+	field := func(p string) string {
+		for k, v := range alias {
+			if strings.Contains(p, k) {
+				return v
+			}
+		}
+		if m := fieldRe.FindStringSubmatch(p); m != nil {
+			return m[1]
+		}
+		return "?" + clip(p, 60)
+	}
+	allInstrs(fn, false, func(_ *ssa.Function, in ssa.Instruction) {
+		cc := callCommon(in)
+		if cc == nil {
+			return
+		}
+		if _, isDefer := in.(*ssa.Defer); isDefer {
+			return
+		}
+		name := calleeNameNoPath(cc)
+		a := argPaths(cc)
+		t := ""
+		switch {
+		case name == "(lib/rlp.EncoderBuffer).List":
+			t = "L("
+		case name == "(lib/rlp.EncoderBuffer).ListEnd":
+			t = ")"
+		case name == "(lib/rlp.EncoderBuffer).WriteUint64" && len(a) == 2:
+			t = "U:" + field(a[1])
+		case name == "(lib/rlp.EncoderBuffer).WriteBytes" && len(a) == 2:
+			t = "B:" + field(a[1])
+		case name == "(lib/rlp.EncoderBuffer).WriteBigInt" && len(a) == 2:
+			t = "I:" + field(a[1])
+		case name == "(lib/rlp.EncoderBuffer).WriteBool" && len(a) == 2:
+			t = "Bool:" + field(a[1])
+		case name == "(lib/rlp.EncoderBuffer).WriteString" && len(a) == 2:
+			t = "S:" + field(a[1])
+		case name == "lib/rlp.Encode" && len(a) == 2:
+			t = "E:" + field(a[1])
+		case strings.HasSuffix(name, ").EncodeRLP") && len(a) == 2:
+			t = "E:" + field(a[0])
+		default:
+			return
+		}
+		toks = append(toks, tok{int(instrPos(in)), t})
+	})
+	sort.SliceStable(toks, func(i, j int) bool { return toks[i].pos < toks[j].pos })
+	var out []string
+	for _, t := range toks {
+		out = append(out, t.s)
+	}
+	return out
+}
+
+func c16Codecs(c *Ctx) {
+	for _, e := range []struct {
+		enc, recv, typ string
+		alias          map[string]string
+		leafOnly       bool
+	}{
+		{"(*types.rlpLog).EncodeRLP", "obj", "rlpLog", nil, false},
+		{"(*types.storageBlockInfo).EncodeRLP", "obj", "storageBlockInfo", nil, false},
+		{"(*types.Header).EncodeRLP", "obj", "Header", nil, false},
+		{"(*types.ReceiptForStorage).EncodeRLP", "r", "receiptStorageRLP", map[string]string{"statusEncoding(": "PostStateOrStatus"}, true},
+	} {
+		fn := c.P.FuncByName(e.enc)
+		nt, _ := c.P.NamedStruct("types", e.typ)
+		if fn == nil || len(fn.Blocks) == 0 || nt == nil {
+			c.Unres("anchor", e.enc, "stream encoder or its struct type not found")
+			continue
+		}
+		c.Funcs[e.enc] = true
+		want := rlpShape(nt, "", true)
+		got := c.encoderTokens(fn, e.recv, e.alias)
+		if e.leafOnly {
+			// hand-written: compare the leading field name only
+			for i, w := range want {
+				if j := strings.Index(w, "."); j > 0 {
+					want[i] = w[:j]
+				}
+			}
+			for i, g := range got {
+				if j := strings.Index(g, "."); j > 0 {
+					got[i] = g[:j]
+				}
+			}
+		}
+		d := ""
+		for i := 0; i < len(want) || i < len(got); i++ {
+			w, g := "<none>", "<none>"
+			if i < len(want) {
+				w = want[i]
+			}
+			if i < len(got) {
+				g = got[i]
+			}
+			if w != g {
+				d = fmt.Sprintf("position %d: the struct has %s, the encoder writes %s", i, w, g)
+				break
+			}
+		}
+		c.Check("S", e.enc+"/writes exactly the fields of types."+e.typ+" in order and kind", d == "", fn.Pos(), len(want), d+" — want "+strings.Join(want, " ")+" — got "+strings.Join(got, " "))
+		for _, w := range want {
+			if strings.HasPrefix(w, "?") {
+				c.Bad("S", e.enc+"/field kinds of types."+e.typ+" are understood", fn.Pos(), 1, "unhandled field "+w)
+			}
+		}
+	}
+	// ---- wrapper codecs carry every consensus field both ways ----------------------------------------------------
+	nonCons := func(fs ...string) map[string]string {
+		m := map[string]string{}
+		for _, f := range fs {
+			m[f] = "not part of this encoding (derived or implementation field)"
+		}
+		return m
+	}
+	c.codecPair(codecSpec{Name: "Receipt (consensus)", Dom: "types.Receipt", Proto: "types.receiptRLP", Enc: "(*types.Receipt).EncodeRLP", Dec: "(*types.Receipt).DecodeRLP",
+		DomSkip:   map[string]string{"PostState": "carried through statusEncoding/setStatus (checked below)", "Status": "carried through statusEncoding/setStatus (checked below)", "TxHash": "implementation field", "ContractAddress": "implementation field", "GasUsed": "implementation field", "BlockHash": "inclusion info", "BlockHeight": "inclusion info", "TransactionIndex": "inclusion info"},
+		ProtoSkip: map[string]string{"PostStateOrStatus": "filled by statusEncoding, read by setStatus (checked below)"}})
+	c.codecPair(codecSpec{Name: "Log (consensus)", Dom: "types.Log", Proto: "types.rlpLog", Enc: "(*types.Log).EncodeRLP", Dec: "(*types.Log).DecodeRLP",
+		DomSkip: nonCons("BlockHeight", "TxHash", "TxIndex", "BlockHash", "Index", "Removed")})
+	c.codecPair(codecSpec{Name: "BlockInfo", Dom: "types.BlockInfo", Proto: "types.storageBlockInfo", Enc: "(*types.BlockInfo).EncodeRLP", Dec: "(*types.BlockInfo).DecodeRLP",
+		DomSkip: map[string]string{"size": "cache"}})
+	c.codecPair(codecSpec{Name: "Account (slim)", Dom: "types.StateAccount", Proto: "types.SlimAccount", Enc: "types.SlimAccountRLP", Dec: "types.FullAccount"})
+	// status encoding and its inverse
+	if enc, dec := c.Fn("types", "Receipt", "EncodeRLP"), c.Fn("types", "Receipt", "DecodeRLP"); enc != nil && dec != nil {
+		n := 0
+		for _, in := range findInstrs(enc, StoreTo(`\.PostStateOrStatus$`)) {
+			if pathOf(in.(*ssa.Store).Val) == "call:(*types.Receipt).statusEncoding(r)" {
+				n++
+			}
+		}
+		m := len(findInstrs(dec, CallTo(`^\(\*types\.Receipt\)\.setStatus$`, `\.PostStateOrStatus\)$`)))
+		c.Check("S", "types.Receipt/status goes out through statusEncoding and comes back through setStatus", n == 1 && m == 1, enc.Pos(), 2, "")
+		c.Guarded(dec, "accept the receipt", SuccessReturn(0, ""), G("stream decoded", IsNil(`^call:\(\*lib/rlp\.Stream\)\.Decode\(`)), G("status understood", IsNil(`^call:\(\*types\.Receipt\)\.setStatus\(`)))
+	}
+	if fn := c.Fn("types", "ReceiptForStorage", "DecodeRLP"); fn != nil {
+		df := fieldFlows(fn, "types.receiptStorageRLP", "types.ReceiptForStorage")
+		for f, g := range map[string]string{"CumulativeGasUsed": "CumulativeGasUsed", "Bloom": "Bloom", "TxHash": "TxHash", "ContractAddress": "ContractAddress", "GasUsed": "GasUsed", "Logs": "Logs"} {
+			c.Check("S", fnName(fn)+"/restores "+f+" from the stored "+g, df[f][g] && len(df[f]) == 1, fn.Pos(), 1, setStr(df[f]))
+		}
+		c.Guarded(fn, "accept the receipt", SuccessReturn(0, ""), G("stream decoded", IsNil(`^call:\(\*lib/rlp\.Stream\)\.Decode\(`)), G("status understood", IsNil(`^call:\(\*types\.Receipt\)\.setStatus\(`)))
+	}
+	if set, get := c.Fn("types", "Receipt", "setStatus"), c.Fn("types", "Receipt", "statusEncoding"); set != nil && get != nil {
+		c.Guarded(set, "mark failed", func(in ssa.Instruction) bool {
+			s, ok := in.(*ssa.Store)
+			return ok && pathOf(s.Addr) == "&r.Status" && strings.Contains(pathOf(s.Val), c.P.Const("types", "ReceiptStatusFailed"))
+		}, G("bytes are the failed marker", True(`^call:bytes\.Equal\(postStateOrStatus, global:types\.receiptStatusFailedRLP\)$`)))
+		c.Guarded(set, "mark successful", func(in ssa.Instruction) bool {
+			s, ok := in.(*ssa.Store)
+			return ok && pathOf(s.Addr) == "&r.Status" && strings.Contains(pathOf(s.Val), c.P.Const("types", "ReceiptStatusSuccessful"))
+		}, G("bytes are the success marker", True(`^call:bytes\.Equal\(postStateOrStatus, global:types\.receiptStatusSuccessfulRLP\)$`)))
+		c.Guarded(get, "encode failed", ReturnWith(0, `^global:types\.receiptStatusFailedRLP$`), G("status is failed", Cmp(`^r\.Status$`, "==", `^const:`+c.P.Const("types", "ReceiptStatusFailed")+`$`)), G("no post state", Cmp(`^call:len\(r\.PostState\)$`, "==", `^const:0$`)))
+		c.Guarded(get, "encode successful", ReturnWith(0, `^global:types\.receiptStatusSuccessfulRLP$`), G("status is not failed", Cmp(`^r\.Status$`, "!=", `^const:`+c.P.Const("types", "ReceiptStatusFailed")+`$`)), G("no post state", Cmp(`^call:len\(r\.PostState\)$`, "==", `^const:0$`)))
+	}
+	// ---- transactions: codec and hash cover the same payload ----------------------------------------------------
+	if enc, dec := c.Fn("types", "Transaction", "EncodeRLP"), c.Fn("types", "Transaction", "DecodeRLP"); enc != nil && dec != nil {
+		ne := len(findInstrs(enc, CallTo(`^lib/rlp\.Encode$`, `Encode\(w, &tx\.data\)$`)))
+		nd := len(findInstrs(dec, CallTo(`^\(\*lib/rlp\.Stream\)\.Decode$`, `Decode\(s, &tx\.data\)$`)))
+		c.Check("S", "types.Transaction/EncodeRLP writes and DecodeRLP reads the same payload (tx.data)", ne == 1 && nd == 1, enc.Pos(), 2, "")
+		c.Guarded(dec, "cache the size", CallTo(`^\(\*sync/atomic\.Value\)\.Store$`, `&tx\.size`), G("decoded without error", IsNil(`^call:\(\*lib/rlp\.Stream\)\.Decode\(s, &tx\.data\)$`)))
+	}
+	if fn := c.Fn("types", "Transaction", "Hash"); fn != nil {
+		n := len(findInstrs(fn, CallTo(`^types\.rlpHash$`, `rlpHash\(tx\)$`)))
+		c.Check("S", fnName(fn)+"/is the hash of the transaction's own RLP encoding", n == 1, fn.Pos(), n, "")
+		c.Guarded(fn, "return the cached hash", func(in ssa.Instruction) bool {
+			r, ok := in.(*ssa.Return)
+			return ok && strings.Contains(pathOf(r.Results[0]), "Load(")
+		}, G("a hash was cached", NotNil(`^call:\(\*sync/atomic\.Value\)\.Load\(&tx\.hash\)$`)))
+	}
+	// the hashed payload is written only while a transaction is being built or decoded (the hash is cached)
+	c.OnlyWrittenIn("types", "Transaction", "data", 2, `^types\.(newTransaction|NewTransaction|NewContractCreation)$`, `^\(\*types\.Transaction\)\.(DecodeRLP|UnmarshalJSON|WithSignature)$`)
+	if nt, st := c.P.NamedStruct("types", "txdata"); nt != nil {
+		var skipped []string
+		for i := 0; i < st.NumFields(); i++ {
+			if reflect.StructTag(st.Tag(i)).Get("rlp") == "-" {
+				skipped = append(skipped, st.Field(i).Name())
+			}
+		}
+		c.Check("S", "types.txdata/only the JSON-only Hash field is left out of the encoding", len(skipped) == 1 && skipped[0] == "Hash", nt.Obj().Pos(), st.NumFields(), strings.Join(skipped, ","))
+	}
+}
